@@ -3,6 +3,7 @@ package yqlib
 import (
 	"container/list"
 	"fmt"
+	"math"
 	"sort"
 	"strconv"
 	"strings"
@@ -97,6 +98,24 @@ func (a sortableNodeArray) Less(i, j int) bool {
 	return lhsContext.MatchingNodes.Len() < rhsContext.MatchingNodes.Len()
 }
 
+// yaml numbers can be hex/octal encoded integers, or .inf / .nan floats
+func parseNumberForSort(value string, tag string) (float64, error) {
+	if tag == "!!int" {
+		if _, num, err := parseInt64(value); err == nil {
+			return float64(num), nil
+		}
+	}
+	switch strings.ToLower(value) {
+	case ".inf", "+.inf":
+		return math.Inf(1), nil
+	case "-.inf":
+		return math.Inf(-1), nil
+	case ".nan":
+		return math.NaN(), nil
+	}
+	return strconv.ParseFloat(strings.ReplaceAll(value, "_", ""), 64)
+}
+
 func (a sortableNodeArray) compare(lhs *CandidateNode, rhs *CandidateNode, dateTimeLayout string) int {
 	lhsTag := lhs.Tag
 	rhsTag := rhs.Tag
@@ -156,24 +175,27 @@ func (a sortableNodeArray) compare(lhs *CandidateNode, rhs *CandidateNode, dateT
 		}
 
 		return 1
-	} else if lhsTag == "!!int" && rhsTag == "!!int" {
-		_, lhsNum, err := parseInt64(lhs.Value)
-		if err != nil {
-			panic(err)
+	}
+
+	if lhsTag == "!!int" && rhsTag == "!!int" {
+		_, lhsNum, lhsErr := parseInt64(lhs.Value)
+		_, rhsNum, rhsErr := parseInt64(rhs.Value)
+		if lhsErr == nil && rhsErr == nil {
+			return int(lhsNum - rhsNum)
 		}
-		_, rhsNum, err := parseInt64(rhs.Value)
+		// outside the int64 range, compare as floats below
+	}
+
+	if (lhsTag == "!!int" || lhsTag == "!!float") && (rhsTag == "!!int" || rhsTag == "!!float") {
+		lhsNum, err := parseNumberForSort(lhs.Value, lhsTag)
 		if err != nil {
-			panic(err)
+			log.Warningf("Could not parse number %v for sort, sorting by string instead: %v", lhs.Value, err)
+			return strings.Compare(lhs.Value, rhs.Value)
 		}
-		return int(lhsNum - rhsNum)
-	} else if (lhsTag == "!!int" || lhsTag == "!!float") && (rhsTag == "!!int" || rhsTag == "!!float") {
-		lhsNum, err := strconv.ParseFloat(lhs.Value, 64)
+		rhsNum, err := parseNumberForSort(rhs.Value, rhsTag)
 		if err != nil {
-			panic(err)
-		}
-		rhsNum, err := strconv.ParseFloat(rhs.Value, 64)
-		if err != nil {
-			panic(err)
+			log.Warningf("Could not parse number %v for sort, sorting by string instead: %v", rhs.Value, err)
+			return strings.Compare(lhs.Value, rhs.Value)
 		}
 		if lhsNum == rhsNum {
 			return 0
